@@ -163,7 +163,44 @@ def r181(ctx, repo):
 # ----------------------------------------------------------------------
 # R18.2
 
+FLOATS = {"float", "np.float32", "np.float64", "np.longdouble", "np.float_",
+          "'float64'", "'float32'", "np.double"}
+
+
+def _cast_of(e):
+    """(dtype node, source node) when `e` is np.array(x, dtype=…),
+    np.asarray(x, dtype=…) or x.astype(…); else (None, None)"""
+    if isinstance(e, ast.Call):
+        if call_name(e) in ("np.array", "np.asarray", "np.asanyarray"):
+            return kwarg(e, "dtype", 1), (e.args[0] if e.args else None)
+        if last_attr(e) == "astype" and e.args and isinstance(
+                e.func, ast.Attribute):
+            return e.args[0], e.func.value
+        if call_name(e) in ("int", "np.int64", "np.int32", "np.rint",
+                            "np.round", "np.floor", "np.trunc", "round"):
+            return e.func, (e.args[0] if e.args else None)
+    return None, None
+
+
 def r182(ctx, repo):
+    bg_kinds = {}
+    _r182(ctx, repo, bg_kinds)
+    if set(bg_kinds) != {"get_bright_bc", "get_bright_perc"}:
+        raise AnalysisError("background subtraction of the siblings "
+                            "get_bright_bc / get_bright_perc not recognised")
+    a, b = bg_kinds["get_bright_bc"], bg_kinds["get_bright_perc"]
+    same = a.split(" (")[0] == b.split(" (")[0]
+    ctx.ob("R18.2", same,
+           f"get_bright_bc and get_bright_perc treat the background alike "
+           f"({a})" if same else
+           f"siblings disagree on the background operand: get_bright_bc "
+           f"uses it {a}, get_bright_perc {b} – avg and percentiles of the "
+           f"same event are taken over different difference images",
+           node=repo.func(BC, "get_bright_bc"),
+           label="siblings subtract the same background")
+
+
+def _r182(ctx, repo, bg_kinds):
     for rel, q, bc in ((BRIGHT, "get_bright", False),
                        (BC, "get_bright_bc", True),
                        (PERC, "get_bright_perc", True)):
@@ -241,6 +278,28 @@ def r182(ctx, repo):
                 why = f"`{txt(right)}` is not the event's background"
             else:
                 ok = True
+            # the background enters the difference exactly: un-cast or cast
+            # to a floating type (it may be a float image, e.g. a rolling
+            # median); an integer cast truncates it per pixel
+            bcast, bsrc = _cast_of(right)
+            if bcast is None:
+                bkind = "exact (no cast)"
+            elif txt(bcast) in FLOATS:
+                bkind = "exact (float cast)"
+            else:
+                bkind = f"cast to {txt(bcast)}"
+            bg_kinds[q] = bkind
+            okb = bkind.startswith("exact") and (
+                bsrc is None or txt(bsrc) == f"image_bg[{ii}]")
+            ctx.ob("R18.2", okb,
+                   "the background enters the subtraction un-truncated"
+                   if okb else
+                   f"the background operand is `{short(right, 50)}`: "
+                   f"a floating-point background is truncated per pixel "
+                   f"before the subtraction, the result is no longer "
+                   f"mean/percentile(image - background) (the integer cast "
+                   f"is only needed for the unsigned image)",
+                   node=asg[name], label="background operand exact")
         ctx.ob("R18.2", ok, "the image is cast to a signed type before the "
                "background of the same event is subtracted" if ok else why,
                node=asg[name], label="signed background subtraction")
@@ -301,6 +360,7 @@ def r183(ctx, repo):
             guard = s.parent
             casts.append((s, guard if isinstance(guard, ast.If) else None))
     kinds = {}
+    narrow = []
     for s, g in casts:
         if g is None:
             kinds["all"] = s
@@ -308,8 +368,10 @@ def r183(ctx, repo):
         t = txt(g.test)
         if "np.integer" in t:
             kinds["integer"] = s
-        elif "np.floating" in t:
+        elif any(x in t for x in ("np.floating", "np.inexact", "np.number")):
             kinds["floating"] = s
+        else:
+            narrow.append(t)
     for kind, want in (("integer", "np.int64"), ("floating", "np.float64")):
         s = kinds.get(kind) or kinds.get("all")
         ok = s is not None and txt(s.value.args[0]) in (
@@ -319,8 +381,13 @@ def r183(ctx, repo):
                f"{kind} contours are cast to {txt(s.value.args[0])}" if ok
                else (f"{kind} contours are not cast to 64 bit"
                      + (f" (`{txt(s.value)}`)" if s is not None else "")
-                     + ": products of coordinates overflow for long "
-                     "channels"), node=s or fn,
+                     + (f"; the cast is guarded by `{narrow[0]}`, which "
+                        f"does not cover all {kind} types (float16/float32 "
+                        f"stay as they are)" if narrow and s is None else "")
+                     + (": products of coordinates overflow for long "
+                        "channels" if kind == "integer" else
+                        ": moments are accumulated in reduced precision")),
+               node=s or fn,
                key=f"{INERT}::cont_moments_cv::64-bit cast of {kind} input")
     # the cast statements dominate every read of the coordinates
     heads = []
@@ -897,7 +964,7 @@ def run(ctx):
     ctx.rule("R18.1", "optional array-valued bg_off is tested with `is (not) "
              "None` in all siblings", minimum=3)
     ctx.rule("R18.2", "signed background subtraction, masked statistics, "
-             "offset on location statistics only", minimum=11)
+             "offset on location statistics only", minimum=14)
     ctx.rule("R18.3", "64-bit cast dominates every coordinate read in "
              "cont_moments_cv", minimum=5)
     ctx.rule("R18.4", "truncated-cone identity, point_scale**3, pixel "
@@ -1070,4 +1137,33 @@ MUTANTS = list(MUTANTS) + [
      "dclab/features/volume.py",
      ("vol_right = vol_revolve(contour_right, contour_z, pix)",
       "vol_right = vol_revolve(contour_right, contour_x, pix)"), "R18.6"),
+]
+
+# seeded changes /tmp/seed/out_C18/patch3 (R18.2) and patch2 (R18.3)
+MUTANTS = list(MUTANTS) + [
+    ("bright_bc truncates a float background (seeded)", BC,
+     ("        imgi = np.array(image[ii], dtype=int) - image_bg[ii]",
+      "        imgi = (np.array(image[ii], dtype=int)\n"
+      "                - np.array(image_bg[ii], dtype=int))"), "R18.2"),
+    ("bright_perc truncates a float background", PERC,
+     ("        imgi = np.array(image[ii], dtype=int) - image_bg[ii]",
+      "        imgi = np.array(image[ii], dtype=int) "
+      "- image_bg[ii].astype(int)"), "R18.2"),
+    ("bright_bc rounds the background", BC,
+     ("        imgi = np.array(image[ii], dtype=int) - image_bg[ii]",
+      "        imgi = np.array(image[ii], dtype=int) "
+      "- np.rint(image_bg[ii])"), "R18.2"),
+    ("moments: only float64 promoted (seeded)", INERT,
+     ("    elif np.issubdtype(cont.dtype, np.floating):",
+      "    elif np.issubdtype(cont.dtype, np.float64):"), "R18.3"),
+]
+
+TWINS = list(TWINS) + [
+    ("bright_bc: background cast to float", BC,
+     ("        imgi = np.array(image[ii], dtype=int) - image_bg[ii]",
+      "        imgi = (np.array(image[ii], dtype=int)\n"
+      "                - np.asarray(image_bg[ii], dtype=np.float64))")),
+    ("moments: float promotion guarded by np.inexact", INERT,
+     ("    elif np.issubdtype(cont.dtype, np.floating):",
+      "    elif np.issubdtype(cont.dtype, np.inexact):")),
 ]
